@@ -477,8 +477,8 @@ func checkAlign(r *core.Run, info *types.Info, fd *ast.FuncDecl) {
 		}
 		flip := false
 		switch {
-		case core.IsLenOf(info, b.X, v) && core.IsLenOf(info, b.Y, into):
-		case core.IsLenOf(info, b.X, into) && core.IsLenOf(info, b.Y, v):
+		case lenOrAlias(info, fd, b.X, v) && lenOrAlias(info, fd, b.Y, into):
+		case lenOrAlias(info, fd, b.X, into) && lenOrAlias(info, fd, b.Y, v):
 			flip = true
 		default:
 			return 0, false
@@ -535,7 +535,7 @@ func checkAlign(r *core.Run, info *types.Info, fd *ast.FuncDecl) {
 			}
 		case *ast.SliceExpr:
 			if id, ok := d.X.(*ast.Ident); ok && id.Name == into && d.High == nil && d.Low != nil {
-				if b, ok := core.Unparen(d.Low).(*ast.BinaryExpr); ok && b.Op == token.SUB && core.IsLenOf(info, b.X, into) && core.IsLenOf(info, b.Y, v) {
+				if b, ok := core.Unparen(d.Low).(*ast.BinaryExpr); ok && b.Op == token.SUB && lenOrAlias(info, fd, b.X, into) && lenOrAlias(info, fd, b.Y, v) {
 					if st.rel&rGT == 0 {
 						o.Auto("right-aligned; low bound len(%s)-len(%s) >= 0 because the relation excludes '>'", into, v)
 					} else {
@@ -778,4 +778,31 @@ func checkFillBytes(r *core.Run, info *types.Info, fd *ast.FuncDecl, into string
 		r.Floor("R-FLOW/align", 2, "FillBytes idiom")
 	}
 	return found
+}
+
+// lenOrAlias: e is len(<name>), or a local defined once as len(<name>)
+// (`have := len(valBytes)`).
+func lenOrAlias(info *types.Info, fd *ast.FuncDecl, e ast.Expr, name string) bool {
+	if core.IsLenOf(info, e, name) {
+		return true
+	}
+	id, ok := core.Unparen(e).(*ast.Ident)
+	if !ok {
+		return false
+	}
+	obj := info.Uses[id]
+	var def ast.Expr
+	n := 0
+	ast.Inspect(fd.Body, func(nd ast.Node) bool {
+		if as, ok := nd.(*ast.AssignStmt); ok && len(as.Lhs) == len(as.Rhs) {
+			for i, l := range as.Lhs {
+				if li, ok := l.(*ast.Ident); ok && obj != nil && (info.Defs[li] == obj || info.Uses[li] == obj) {
+					n++
+					def = as.Rhs[i]
+				}
+			}
+		}
+		return true
+	})
+	return n == 1 && def != nil && core.IsLenOf(info, def, name)
 }
